@@ -60,6 +60,16 @@ func c12Case(t *rapid.T, ev *evProp, realDKG bool) {
 	if rapid.IntRange(0, 3).Draw(t, "lowt") == 0 {
 		th = rapid.IntRange(1, n).Draw(t, "t.any")
 	}
+	// The long-term and the one-time key need not have been shared with the same threshold: NewDSS
+	// takes its own T, and T = max(tLong, tRandom) partials determine s = r + h*x (a polynomial of
+	// degree max-1).  One case in three uses different thresholds.
+	tl, tr := th, th
+	switch rapid.SampledFrom([]string{"same", "same", "long-lower", "random-lower"}).Draw(t, "tshape") {
+	case "long-lower":
+		tl = rapid.IntRange(min(th, n/2+1), th).Draw(t, "tlong")
+	case "random-lower":
+		tr = rapid.IntRange(min(th, n/2+1), th).Draw(t, "trandom")
+	}
 	ks := xofStream(genSeed(t, "keys"))
 	privs := make([]kyber.Scalar, n)
 	pubs := make([]kyber.Point, n)
@@ -69,17 +79,17 @@ func c12Case(t *rapid.T, ev *evProp, realDKG bool) {
 	}
 	var longs, rands, rands2 []*dks
 	if realDKG {
-		longs, rands, rands2 = c12DKGShares(t, g, privs, pubs, th)
+		longs, rands, rands2 = c12DKGShares(t, g, privs, pubs, tl, tr)
 		if longs == nil {
 			return
 		}
 	} else {
-		_, longs = dealDKS(g, th, n, genSeed(t, "long"))
-		_, rands = dealDKS(g, th, n, genSeed(t, "random"))
-		_, rands2 = dealDKS(g, th, n, genSeed(t, "random2"))
+		_, longs = dealDKS(g, tl, n, genSeed(t, "long"))
+		_, rands = dealDKS(g, tr, n, genSeed(t, "random"))
+		_, rands2 = dealDKS(g, tr, n, genSeed(t, "random2"))
 	}
 	msg := genMsg(t, 200)
-	ctx := fmt.Sprintf("dss n=%d t=%d realDKG=%v |msg|=%d", n, th, realDKG, len(msg))
+	ctx := fmt.Sprintf("dss n=%d T=%d tLong=%d tRandom=%d realDKG=%v |msg|=%d", n, th, tl, tr, realDKG, len(msg))
 	key := func(w string) string { return "C12/dss/" + w }
 	ds := make([]*dss.DSS, n)
 	other := make([]*dss.DSS, n) // same long-term key, another one-time key: a different session
@@ -233,7 +243,7 @@ func c12Case(t *rapid.T, ev *evProp, realDKG bool) {
 			violationOrKnown(t, ev, key("same-signature"), "participants derived different signatures: %x vs %x\n%s %v", sigs[0], s, ctx, hist)
 		}
 	}
-	ev.Case(nontrivial, fmt.Sprintf("%s %v", ctx, hist), fmt.Sprintf("dss-n:%d", n), fmt.Sprintf("dss-signed:%d", len(sigs)), fmt.Sprintf("dss-realdkg:%v", realDKG))
+	ev.Case(nontrivial, fmt.Sprintf("%s %v", ctx, hist), fmt.Sprintf("dss-n:%d", n), fmt.Sprintf("dss-signed:%d", len(sigs)), fmt.Sprintf("dss-realdkg:%v", realDKG), fmt.Sprintf("dss-thresholds-differ:%v", tl != tr))
 }
 
 const c12Rule = "case = Ed25519, n in 3..7, t in [n/2+1, n] (1/4 of the cases: any t in 1..n), long-term and two one-time distributed keys (dealer polynomials wrapped as DistKeyShare; in 1/5 of the thorough cases the outputs of real Pedersen and Rabin DKG runs), a message of 0..200 bytes; " +
